@@ -134,6 +134,12 @@ theorem lowerStr_ascii (s : List Char) (h : ∀ c ∈ s, c.toNat < 128) : lowerS
     simp only [lowerStr, lower, List.map] at ih ⊢
     rw [goToLower_ascii c (h c (by simp)), ih (fun d hd => h d (by simp [hd]))]
 
+theorem toNat_ofNat_small (n : Nat) (h : n < 200) : (Char.ofNat n).toNat = n := by
+  have hv : n.isValidChar := Or.inl (by omega)
+  unfold Char.ofNat
+  rw [dif_pos hv]
+  simp [Char.ofNatAux, Char.toNat]
+
 theorem lowerAscii_props (c : Char) (h : NuGetSpec.identChar c = true) :
     Scalibr.Semantic.identChar (lowerAscii c) = true ∧ (isDigit c = false → isDigit (lowerAscii c) = false) ∧
     (isDigit c = true → lowerAscii c = c) := by
@@ -141,18 +147,16 @@ theorem lowerAscii_props (c : Char) (h : NuGetSpec.identChar c = true) :
   by_cases hu : isUpper c = true
   · simp only [hu, if_true]
     simp only [isUpper, Bool.and_eq_true, decide_eq_true_eq] at hu
-    have hn : (Char.ofNat (c.toNat + 32)).toNat = c.toNat + 32 := by
-      have : (c.toNat + 32).isValidChar := by
-        left; omega
-      simp [Char.toNat, Char.ofNat, this, Char.ofNatAux]
+    have hn : (Char.ofNat (c.toNat + 32)).toNat = c.toNat + 32 := toNat_ofNat_small _ (by omega)
     refine ⟨?_, ?_, ?_⟩
     · simp only [Scalibr.Semantic.identChar, isDigit, isLetter, isLower, isUpper, hn, Bool.or_eq_true, Bool.and_eq_true, decide_eq_true_eq]
       left; right; left; omega
     · intro _; simp only [isDigit, hn, Bool.and_eq_false_iff, decide_eq_false_iff_not]; omega
     · intro hd; simp only [isDigit, Bool.and_eq_true, decide_eq_true_eq] at hd; omega
   · simp only [hu, Bool.false_eq_true, if_false]
-    refine ⟨?_, fun h => h, fun _ => rfl⟩
-    simpa [NuGetSpec.identChar, Scalibr.Semantic.identChar] using h
+    refine ⟨?_, fun h => h, ?_⟩
+    · simpa [NuGetSpec.identChar, Scalibr.Semantic.identChar] using h
+    · intro _; trivial
 
 /-- the case-folded label as a semver.org identifier -/
 def foldLabel : Label → Ident
@@ -256,19 +260,28 @@ theorem tail_chars (v : V) (hw : v.wf = true) : ∀ c ∈ v.tail, c.toNat < 128 
         · exact identChar_ascii c (Or.inl h)
         · exact identChar_ascii c (Or.inr (Or.inl h))
 
+theorem lower_preTail (p : List Label) :
+    List.map lowerAscii (if p.isEmpty then [] else '-' :: NuGetSpec.renderPre p) =
+      if (p.map foldLabel).isEmpty then [] else '-' :: Scalibr.Semantic.renderPre (p.map foldLabel) := by
+  cases p with
+  | nil => rfl
+  | cons i r =>
+    have := lower_renderPre (i :: r)
+    simp only [lower] at this
+    simp [this, lowerAscii, isUpper]
+
+theorem lower_buildTail (b : List Char) :
+    List.map lowerAscii (if b.isEmpty then [] else '+' :: b) =
+      if (b.map lowerAscii).isEmpty then [] else '+' :: b.map lowerAscii := by
+  cases b with
+  | nil => rfl
+  | cons c cs => simp [lowerAscii, isUpper]
+
 theorem lower_tail (v : V) (hw : v.wf = true) : lowerStr v.tail = buildStr (foldSem v) := by
   rw [lowerStr_ascii _ (tail_chars v hw)]
   simp only [V.tail, buildStr, foldSem, lower, List.map_append]
-  congr 1
-  · cases hp : v.pre with
-    | nil => simp
-    | cons i r =>
-      have := lower_renderPre (i :: r)
-      simp only [lower] at this
-      simp [this, lowerAscii, isUpper]
-  · cases hb : v.build with
-    | nil => simp
-    | cons c cs => simp [lowerAscii, isUpper]
+  rw [lower_preTail, lower_buildTail]
+  rfl
 
 theorem foldSem_wf (v : V) (hw : v.wf = true) : (foldSem v).wf = true := by
   simp only [V.wf, Bool.and_eq_true] at hw
@@ -283,7 +296,7 @@ theorem foldSem_wf (v : V) (hw : v.wf = true) : (foldSem v).wf = true := by
     apply List.all_eq_true.mpr
     intro c hc
     have := List.all_eq_true.mp hw.2 c hc
-    simp only [Bool.or_eq_true, decide_eq_true_eq] at this ⊢
+    simp only [Function.comp_apply, Bool.or_eq_true, decide_eq_true_eq] at this ⊢
     rcases this with h | h
     · exact Or.inl (lowerAscii_props c h).1
     · subst h; right; decide
@@ -302,8 +315,12 @@ theorem preCmp_fold : ∀ p q : List Label,
 
 theorem preRule_fold (p q : List Label) :
     Scalibr.Semantic.preRule (p.map foldLabel) (q.map foldLabel) = NuGetSpec.preRule p q := by
-  cases p <;> cases q <;> simp only [List.map, Scalibr.Semantic.preRule, NuGetSpec.preRule]
-  exact preCmp_fold _ _
+  cases p with
+  | nil => cases q <;> rfl
+  | cons i r =>
+    cases q with
+    | nil => rfl
+    | cons j r' => exact preCmp_fold (i :: r) (j :: r')
 
 /-- the NuGet documentation's ordering on every canonically rendered version -/
 theorem nuget_spec (a b : V) (ha : a.wf = true) (hb : b.wf = true) :
